@@ -89,18 +89,9 @@ struct HashTable {
 
     HashTable &operator=(const HashTable &src) {
         if (this != &src) {
-            SizeT      *ht      = getHashTable();
-            HItem      *storage = Storage();
-            const SizeT size    = Size();
-
-            clearHashTable();
-            setSize(0);
-            setCapacity(0);
-
-            copyTable(src);
-
-            Memory::Dispose(storage, (storage + size));
-            Memory::Deallocate(ht);
+            // 'src' may be stored inside this table, or hold it: the copy is complete before anything changes.
+            HashTable tmp{src};
+            *this = Memory::Move(tmp);
         }
 
         return *this;
